@@ -356,7 +356,7 @@ pub fn subs() -> Vec<Box<dyn Sub>> {
             eval: eval_tag,
         }),
         Box::new(PinnedSub),
-        Box::new(super::fuzzsub::FuzzSub { target: "fuzz_mbi", name: "fuzz-mbi", runs: 1_000_000, max_len: 2048 }),
-        Box::new(super::fuzzsub::FuzzSub { target: "fuzz_tag", name: "fuzz-tag", runs: 1_600_000, max_len: 1024 }),
+        Box::new(super::fuzzsub::FuzzSub { target: "fuzz_mbi", name: "fuzz-mbi", runs: 1_000_000, quick_runs: 12_000, max_len: 2048 }),
+        Box::new(super::fuzzsub::FuzzSub { target: "fuzz_tag", name: "fuzz-tag", runs: 1_600_000, quick_runs: 30_000, max_len: 1024 }),
     ]
 }
